@@ -231,6 +231,10 @@ def abs_instances(tier):
         out.append(('oneway3', NAMED['oneway3'], dict(fam=fam, T=3, ne=False, width=1, sym_maxdist=True, sym_init=False, sym_minprob=True), [('match', 3), ('widen', 2)], {}))
     out.append(('line2', NAMED['line2'], dict(fam='simple_n', T=2, ne=True, **ALLSYM), [('match', 2)], {}))
     for fam in ('simple', 'dist'):
+        # minimum normalised probability symbolic with non-emitting states on the path (their full log-probability over the path length counts)
+        out.append(('oneway4', NAMED['oneway4'], dict(fam=fam, T=2, ne=True, sym_maxdist=False, sym_init=False, sym_minprob=True), [('match', 2)], {}))
+        out.append(('oneway3', NAMED['oneway3'], dict(fam=fam, T=2, ne=True, noise_ne=0.5, sym_maxdist=False, sym_init=False, sym_minprob=True), [('match', 2)], {}))
+    for fam in ('simple', 'dist'):
         # max_dist and max_dist_init both symbolic and unrelated (either may be the larger one), non-emitting states between the observations
         out.append(('oneway4', NAMED['oneway4'], dict(fam=fam, T=2, ne=True, sym_maxdist=True, sym_init=True, sym_minprob=False), [('match', 2)], {}))
     # jump over a gap: match stops early, continue_with_distance adds nearby edges, the extended match runs through the jumped state
